@@ -61,6 +61,27 @@ def answer (toks : List String) : String :=
       (optRat dens) (optInt number) n1.length n2.length cur
     let R := randomlySetCrossLinks A n1 n2 k (pairs draws)
     s!"{showBoolMat (toMat R.1 nn.toNat! nn.toNat!)}|{k}|{showDone R.2.2 k.toNat}"
+  -- whole method with the RNG *values*: u = k / 2^20, the draw is the generated `geoDraw u E`
+  | ["geoMU", mode, n, a, d, eps, iters, ks] =>
+    let N := n.toNat!
+    let A := ofMat (boolMat a)
+    let md : GeoMode := if mode == "1" then .I else if mode == "2" then .II else .III
+    let E : Int := (edgeList N A).length
+    let dr (k : Nat) : Nat := (Pyunicorn.Generated.StructC17.geoDraw ((k : Rat) / 1048576) E).toNat
+    let draws := (pairs ks).map fun kk => (dr kk.1, dr kk.2)
+    match geoMethod md (ofIntMat (intMat d)) eps.toInt! N A iters.toNat! draws with
+    | none => "raise:IndexError"
+    | some st =>
+      s!"{showBoolMat (toMat st.A N N)}|{showPairs (edgeList N A)}|{(edgeList N A).length}|{showDone st.i iters.toNat!}"
+  | ["geoadm", mode, a, d, eps, degree, edges] =>
+    let c : GeoCfg :=
+      { mode := if mode == "1" then .I else if mode == "2" then .II else .III
+        D := ofIntMat (intMat d), eps := eps.toInt!, degree := ofInts (ints degree) }
+    if geoAdmissible c (ofMat (boolMat a)) (pairs edges) then "1" else "0"
+  | ["crossadm", c, links] =>
+    if crossAdmissible (ofMat (boolMat c)) (pairs links) then "1" else "0"
+  | ["simplify", nn, es] =>
+    showBoolMat (toMat (simplified (pairs es)) nn.toNat! nn.toNat!)
   | ["edges", nn, es] =>
     match fromEdges nn.toNat! (pairs es) with
     | none => "raise:ValueError"
